@@ -665,7 +665,7 @@ def extra_guards(facts, allowed, body, site=None):
             continue
         if f in body.presence_assertions():
             continue
-        if site is not None and body.asserted(f, site):
+        if site is not None and asserted_precondition(body, f, site):
             continue
         # "the slot looked up in one of the graph's tables exists": every slot of the three tables is filled by the
         # constructor and ids beyond the capacity are outside the documented preconditions
